@@ -65,6 +65,15 @@ class RunPlan:
         c = result.get("counters", {})
         return result.get("n_ops", 0) > 0 and any(k.endswith(".checked") and v for k, v in c.items())
 
+    def post_process(self, tasks, results, pool):
+        """Hook: derive further violations from the batch (may append to
+        results[i]["violations"]); used by differential oracles."""
+
+    def run_one(self, template, req):
+        """One complete evaluation of a request on one template (history plus
+        whatever differential worlds the property needs)."""
+        return template.request(req)
+
     def extra_checks(self, tier, seed, pool, findings):
         """Additional deterministic sub-checks; returns (violations, evidence dict)."""
         return [], {}
@@ -73,12 +82,18 @@ class RunPlan:
     def replay(self, rp):
         req = dict(rp["request"])
         req["opts"] = {"want_log": False}
-        return driver.one(rp["boot"], req)
+        t = driver.Template(rp["boot"])
+        try:
+            return self.run_one(t, req)
+        finally:
+            t.close()
 
     # ---- main flow ---------------------------------------------------
     def check(self, tier, seed, args, t0):
         findings = load_findings()
         self.params_cache = self.params(tier)
+        if getattr(args, "outside_region", False):
+            self.params_cache = dict(self.params_cache, outside_region=True)
         boots = self.boots(tier, seed)
         n = args.runs or (self.quick_runs if tier == "quick" else self.thorough_runs)
         tasks = []
@@ -94,6 +109,8 @@ class RunPlan:
                 out("HARNESS-ERROR run=%d seed=%d %s" % (i, tasks[i][1]["seed"], e.strip().splitlines()[-1] if e.strip() else e))
             self.evidence(tier, seed, t0, tasks, results, [], {}, {}, harness=len(harness))
             return 2
+
+        self.post_process(tasks, results, pool)
 
         # determinism self-test: same seeds in templates with other PYTHONHASHSEED
         st = {"pairs": 0, "mismatches": 0}
@@ -206,7 +223,7 @@ class RunPlan:
             base = {k: x for k, x in req.items() if k not in ("seed",)}
 
             def test(cand):
-                r = t.request(dict(base, ops=cand, seed=req.get("seed")))
+                r = self.run_one(t, dict(base, ops=cand, seed=req.get("seed")))
                 return any(x["signature"] == sig for x in self.violations_of(r))
 
             small, evals = ops, 0
@@ -215,7 +232,7 @@ class RunPlan:
                 small, e2 = shrink.simplify_args(small, test)
                 evals += e2
             final_req = dict(base, ops=small, seed=req.get("seed"))
-            final = t.request(final_req)
+            final = self.run_one(t, final_req)
         finally:
             t.close()
         rp = {
